@@ -2,6 +2,7 @@ package rules
 
 import (
 	"fmt"
+	"go/ast"
 	"go/constant"
 	"go/token"
 	"go/types"
@@ -46,11 +47,20 @@ func ssaTerm(v ssa.Value, idx *[]string, depth int) string {
 	}
 	switch x := v.(type) {
 	case *ssa.Parameter:
+		if t, bound := ssaBind[x]; bound {
+			return t
+		}
 		for i, p := range x.Parent().Params {
 			if p == x {
 				return fmt.Sprintf("param#%d", i)
 			}
 		}
+	case *ssa.Global:
+		return "global:" + x.Name()
+	case *ssa.Lookup:
+		return "lookup(" + ssaTerm(x.X, idx, depth+1) + ", " + ssaTerm(x.Index, idx, depth+1) + ")"
+	case *ssa.TypeAssert:
+		return "assert:" + x.AssertedType.String() + "(" + ssaTerm(x.X, idx, depth+1) + ")"
 	case *ssa.Const:
 		if x.Value == nil {
 			return "nil"
@@ -97,6 +107,10 @@ func ssaTerm(v ssa.Value, idx *[]string, depth int) string {
 			name = "invoke." + x.Call.Method.Name()
 			args = append([]string{ssaTerm(x.Call.Value, idx, depth+1)}, args...)
 		} else if fn := x.Call.StaticCallee(); fn != nil {
+			// an unexported straight-line helper of the same package is what it returns
+			if in, ok := ssaInline(x, fn, args, idx, depth); ok {
+				return in
+			}
 			o := fn
 			if fn.Origin() != nil {
 				o = fn.Origin()
@@ -370,4 +384,129 @@ func ssaPaths(fn *ssa.Function) ([]string, bool) {
 	walk(fn.Blocks[0], map[*ssa.BasicBlock]bool{}, nil)
 	sort.Strings(out)
 	return out, ok
+}
+
+// ssaBind maps the parameters of a helper being expanded to the terms of its arguments.
+var ssaBind = map[*ssa.Parameter]string{}
+
+// ssaInline: the term of a call of an unexported function of the caller's package that consists
+// of one block without effects (no stores, sends, go, defer, map updates) and returns one value.
+func ssaInline(call *ssa.Call, fn *ssa.Function, args []string, idx *[]string, depth int) (string, bool) {
+	o := fn
+	if fn.Origin() != nil {
+		o = fn.Origin()
+	}
+	caller := call.Parent()
+	if o.Pkg == nil || caller == nil {
+		return "", false
+	}
+	callerPkg := caller.Pkg
+	if callerPkg == nil && caller.Origin() != nil {
+		callerPkg = caller.Origin().Pkg // an instantiation wrapper
+	}
+	if callerPkg != o.Pkg {
+		return "", false
+	}
+	body := fn
+	if len(body.Blocks) == 0 {
+		body = o // an instance of a generic function: the generic body
+	}
+	if ast.IsExported(o.Name()) || len(body.Blocks) != 1 || len(body.Params) != len(args) || depth > 8 {
+		return "", false
+	}
+	fn = body
+	var ret *ssa.Return
+	for _, in := range fn.Blocks[0].Instrs {
+		switch x := in.(type) {
+		case *ssa.Store, *ssa.Send, *ssa.Go, *ssa.Defer, *ssa.MapUpdate, *ssa.Panic, *ssa.RunDefers:
+			return "", false
+		case *ssa.Return:
+			ret = x
+		}
+	}
+	if ret == nil || len(ret.Results) != 1 {
+		return "", false
+	}
+	saved := map[*ssa.Parameter]string{}
+	for i, p := range fn.Params {
+		if old, had := ssaBind[p]; had {
+			saved[p] = old
+		}
+		ssaBind[p] = args[i]
+	}
+	t := ssaTerm(ret.Results[0], idx, depth+1)
+	for _, p := range fn.Params {
+		if old, had := saved[p]; had {
+			ssaBind[p] = old
+		} else {
+			delete(ssaBind, p)
+		}
+	}
+	return t, true
+}
+
+// ssaParamReaches: parameter j of fn is handed, as it is, to argument position argIdx of a call
+// whose callee satisfies isTarget - in fn itself or in an unexported function of its package that
+// fn hands the parameter on to (to depth 3).
+func ssaParamReaches(fn *ssa.Function, j int, isTarget func(name string) bool, argIdx int, depth int) bool {
+	if fn == nil || j >= len(fn.Params) || depth > 3 {
+		return false
+	}
+	strip := func(v ssa.Value) ssa.Value {
+		for {
+			switch x := v.(type) {
+			case *ssa.ChangeType:
+				v = x.X
+			case *ssa.Convert:
+				v = x.X
+			case *ssa.MakeInterface:
+				v = x.X
+			default:
+				return v
+			}
+		}
+	}
+	p := fn.Params[j]
+	for _, b := range fn.Blocks {
+		for _, in := range b.Instrs {
+			call, ok := in.(*ssa.Call)
+			if !ok {
+				continue
+			}
+			args := call.Call.Args
+			name := ""
+			var callee *ssa.Function
+			if call.Call.IsInvoke() {
+				name = "invoke." + call.Call.Method.Name()
+			} else if sc := call.Call.StaticCallee(); sc != nil {
+				callee = sc
+				o := sc
+				if sc.Origin() != nil {
+					o = sc.Origin()
+				}
+				name = o.Name()
+				if o.Pkg != nil {
+					name = o.Pkg.Pkg.Name() + "." + o.Name()
+				}
+				if o.Signature.Recv() != nil {
+					name = "method." + o.Name()
+				}
+			}
+			if isTarget(name) && argIdx < len(args) && strip(args[argIdx]) == ssa.Value(p) {
+				return true
+			}
+			if callee != nil && !ast.IsExported(callee.Name()) {
+				body := callee
+				if len(body.Blocks) == 0 && callee.Origin() != nil {
+					body = callee.Origin()
+				}
+				for m, a := range args {
+					if strip(a) == ssa.Value(p) && ssaParamReaches(body, m, isTarget, argIdx, depth+1) {
+						return true
+					}
+				}
+			}
+		}
+	}
+	return false
 }
